@@ -41,10 +41,12 @@ var configs = map[string]Config{
 	"multi3": {Name: "multi3", BalDenomA: "bar", BalDenomB: "foo", BalAmtA: 1000000000, BalAmtB: 2500000000, BalWA: 1, BalWB: 1, BalFee: "0.003",
 		BalExtra: []Asset{{"baz", 1600000000, 2}},
 		CLToken0: "eth", CLToken1: "usdc", CLAmt0: 1000000000, CLAmt1: 5000000000, CLSpread: "0.001", CLTickSp: 100, KeepMs: 8000, PruneLimit: 5},
-	// FOUR assets, six pairs (bar/baz, bar/foo, bar/qux, baz/foo, baz/qux, foo/qux); observed: the 2nd, 5th and 6th. A swap
-	// along bar/foo leaves the price of baz/qux unchanged (the module still writes a record for it) and vice versa
+	// FOUR assets, six pairs (bar/baz, bar/foo, bar/foobar, baz/foo, baz/foobar, foo/foobar); observed: the 2nd, 5th and 6th. A swap
+	// along bar/foo leaves the price of baz/foobar unchanged (the module still writes a record for it) and vice versa. The fourth
+	// denom is called foobar on purpose: "foo" is a byte prefix of it, so the store keys of the pairs (baz,foo) and (baz,foobar)
+	// differ only behind a common prefix (as gamm/pool/1 and gamm/pool/10 do)
 	"multi4": {Name: "multi4", BalDenomA: "bar", BalDenomB: "foo", BalAmtA: 1000000000, BalAmtB: 2500000000, BalWA: 1, BalWB: 1, BalFee: "0.003",
-		BalExtra: []Asset{{"baz", 1600000000, 2}, {"qux", 700000000, 3}}, BalObserve: [][2]string{{"bar", "foo"}, {"baz", "qux"}, {"foo", "qux"}},
+		BalExtra: []Asset{{"baz", 1600000000, 2}, {"foobar", 700000000, 3}}, BalObserve: [][2]string{{"bar", "foo"}, {"baz", "foobar"}, {"foo", "foobar"}},
 		CLToken0: "eth", CLToken1: "usdc", CLAmt0: 1000000000, CLAmt1: 5000000000, CLSpread: "0.001", CLTickSp: 100, KeepMs: 8000, PruneLimit: 9},
 	// three-asset STABLESWAP pool (unit scaling factors), all three pairs observed
 	"stable3": {Name: "stable3", BalDenomA: "bar", BalDenomB: "foo", BalAmtA: 1000000000, BalAmtB: 1300000000, BalWA: 1, BalWB: 1, BalFee: "0.003",
